@@ -50,8 +50,9 @@ class Rewriter(ast.NodeTransformer):
         self.in_raise = 0
 
     def visit_IfExp(self, node):
+        pure = _pure(node.body) and _pure(node.orelse)
         self.generic_visit(node)
-        if _pure(node.body) and _pure(node.orelse):
+        if pure:
             return ast.copy_location(ast.Call(
                 func=ast.Name(id="__symx_ite__", ctx=ast.Load()),
                 args=[node.test,
@@ -96,6 +97,10 @@ class Rewriter(ast.NodeTransformer):
             return ast.copy_location(ast.Call(
                 func=ast.Name(id="__symx_join__", ctx=ast.Load()),
                 args=[f.value, node.args[0]], keywords=[]), node)
+        if isinstance(f, ast.Attribute) and f.attr in ("find", "rfind", "index", "startswith", "endswith", "count") and 1 <= len(node.args) <= 3 and not node.keywords:
+            return ast.copy_location(ast.Call(
+                func=ast.Name(id="__symx_strmeth__", ctx=ast.Load()),
+                args=[f.value, ast.Constant(value=f.attr)] + node.args, keywords=[]), node)
         if isinstance(f, ast.Attribute) and f.attr == "get" and 1 <= len(node.args) <= 2 and not node.keywords:
             return ast.copy_location(ast.Call(
                 func=ast.Name(id="__symx_get__", ctx=ast.Load()),
